@@ -567,6 +567,131 @@ fn run_long(n: usize, kind: u8, out: &mut JobOut) {
     out.sample = Some(Json::str(&key));
 }
 
+/// Values that collide with `a` under simple folds of the bit pattern (what a hashed memo of
+/// coordinates would key on) and lie next to one of the `targets`: the high half of the pattern is
+/// the target's, the low half is chosen so that xor / sum of the halves, or the low half alone, equal
+/// those of `a`. 64-bit patterns are folded to 32 bits, 32-bit patterns (f32) to 16.
+fn fold_companions(a: f64, targets: &[f64], f32_type: bool) -> Vec<(&'static str, f64)> {
+    let mut v = vec![];
+    for &t in targets {
+        if f32_type {
+            let (ab, tb) = ((a as f32).to_bits(), (t as f32).to_bits());
+            let (ha, la, ht) = (ab >> 16, ab & 0xffff, tb >> 16);
+            for (name, lo) in [("xor16", (ha ^ la ^ ht) & 0xffff), ("add16", ha.wrapping_add(la).wrapping_sub(ht) & 0xffff), ("low16", la)] {
+                v.push((name, f32::from_bits((ht << 16) | lo) as f64));
+            }
+        } else {
+            let (ab, tb) = (a.to_bits(), t.to_bits());
+            let (ha, la, ht) = ((ab >> 32) as u32, ab as u32, (tb >> 32) as u32);
+            for (name, lo) in [("xor32", ha ^ la ^ ht), ("add32", ha.wrapping_add(la).wrapping_sub(ht)), ("low32", la)] {
+                v.push((name, f64::from_bits(((ht as u64) << 32) | lo as u64)));
+            }
+        }
+    }
+    v
+}
+
+/// Histories of two queries A, B on one interpolator where B collides with A under a fold of the
+/// bit pattern and lies in another interval: B's answer must be bit-identical on the twin whose
+/// rows outside B's bracket are NaN (the twin sees the same history), for Linear and for Bilinear
+/// with the axis used as x and as y, single calls and a two-element batch.
+fn run_collisions<T: Fl>(out: &mut JobOut) {
+    let f32_type = T::NAME == "f32";
+    let x64 = [0.0, 0.75, 1.25, 2.5, 3.5, 5.0, 9.0];
+    let other64 = [-1.0, 0.5, 2.0];
+    let (Some(xt), Some(ot)) = (vec_exact::<T>(&x64), vec_exact::<T>(&other64)) else { return };
+    let n = xt.len();
+    let anchors = [1.0, 2.0, 3.0, 0.5, 4.0, 0.3, 7.1, 1.7];
+    let targets: Vec<f64> = x64.windows(2).flat_map(|w| [w[0] + 0.25 * (w[1] - w[0]), w[0] + 0.5 * (w[1] - w[0]), w[0] + 0.8125 * (w[1] - w[0])]).collect();
+    let d1 = Array2::from_shape_fn((n, 2), |(i, k)| T::from_f64_lossy([1.0, -0.5, 2.0, 0.25, -3.0, 1.5, 0.875][i] * (1 + k) as f64));
+    let dx = ndarray::Array3::from_shape_fn((n, 3, 2), |(i, j, k)| T::from_f64_lossy([1.0, -0.5, 2.0, 0.25, -3.0, 1.5, 0.875][i] * (1 + k) as f64 + 0.3 * j as f64));
+    let dy = ndarray::Array3::from_shape_fn((3, n, 2), |(j, i, k)| dx[[i, j, k]]);
+    let oq = T::from_f64_lossy(0.25);
+    for &a64 in &anchors {
+        let a = T::from_f64_lossy(a64);
+        let ia = bracket_scan(&xt, a);
+        for (fold, b64) in fold_companions(Fl::to_f64(a), &targets, f32_type) {
+            let Some(b) = T::from_f64_exact(b64) else { continue };
+            if !(b > xt[0] && b < xt[n - 1]) {
+                continue;
+            }
+            let ib = bracket_scan(&xt, b);
+            if ib == ia {
+                continue;
+            }
+            out.states += 1;
+            let keep = |i: usize| i == ib || i == ib + 1;
+            // every (kind, call): answers for B after A on the base data and on the twin
+            for kind in ["Linear", "Bilinear/x", "Bilinear/y"] {
+                for call in ["single", "batch"] {
+                    let ask = |poisoned: bool| -> Result<Vec<T>, String> {
+                        catch(|| -> Result<Vec<T>, String> {
+                            match kind {
+                                "Linear" => {
+                                    let mut d = d1.clone();
+                                    if poisoned {
+                                        for i in (0..n).filter(|&i| !keep(i)) {
+                                            d.index_axis_mut(ndarray::Axis(0), i).fill(T::nan());
+                                        }
+                                    }
+                                    let ip = build_linear::<T, _>(Some(&xt), d, true).map_err(|e| e.to_string())?;
+                                    if call == "single" {
+                                        let _ = ip.interp(a).map_err(|e| e.to_string())?;
+                                        Ok(ip.interp(b).map_err(|e| e.to_string())?.iter().cloned().collect())
+                                    } else {
+                                        Ok(ip.interp_array(&ndarray::Array1::from(vec![a, b])).map_err(|e| e.to_string())?.index_axis(ndarray::Axis(0), 1).iter().cloned().collect())
+                                    }
+                                }
+                                _ => {
+                                    let as_x = kind == "Bilinear/x";
+                                    let mut d = if as_x { dx.clone() } else { dy.clone() };
+                                    if poisoned {
+                                        for i in (0..n).filter(|&i| !keep(i)) {
+                                            d.index_axis_mut(ndarray::Axis(if as_x { 0 } else { 1 }), i).fill(T::nan());
+                                        }
+                                    }
+                                    let ip = if as_x { build_bilinear::<T, _>(Some(&xt), Some(&ot), d, true) } else { build_bilinear::<T, _>(Some(&ot), Some(&xt), d, true) }.map_err(|e| e.to_string())?;
+                                    let pt = |v: T| if as_x { (v, oq) } else { (oq, v) };
+                                    if call == "single" {
+                                        let _ = ip.interp(pt(a).0, pt(a).1).map_err(|e| e.to_string())?;
+                                        Ok(ip.interp(pt(b).0, pt(b).1).map_err(|e| e.to_string())?.iter().cloned().collect())
+                                    } else {
+                                        let (qx, qy) = (ndarray::Array1::from(vec![pt(a).0, pt(b).0]), ndarray::Array1::from(vec![pt(a).1, pt(b).1]));
+                                        Ok(ip.interp_array(&qx, &qy).map_err(|e| e.to_string())?.index_axis(ndarray::Axis(0), 1).iter().cloned().collect())
+                                    }
+                                }
+                            }
+                        })
+                        .and_then(|r| r)
+                    };
+                    let (base, twin) = (ask(false), ask(true));
+                    out.evals += 1;
+                    out.nontrivial += 1;
+                    out.transitions += 2;
+                    let same = match (&base, &twin) {
+                        (Ok(p), Ok(q)) => p.len() == q.len() && p.iter().zip(q).all(|(u, v)| same_bits(*u, *v)),
+                        _ => false,
+                    };
+                    out.outcome(if same { "collision:bit-identical" } else { "collision:changed" });
+                    if !same {
+                        let show = |r: &Result<Vec<T>, String>| match r {
+                            Ok(v) => format!("{:?}", v.iter().map(|t| Fl::to_f64(*t)).collect::<Vec<_>>()),
+                            Err(e) => format!("Err({e})"),
+                        };
+                        out.violate(
+                            format!("{}:collisions:{kind}:{call}:{fold}", T::NAME),
+                            format!("{kind} ({call}): after a query at {:e}, the query at {:e} (bracket {ib}..{}, its bit pattern collides with the first under {fold}) gives {}, but {} when every row outside its bracket is NaN", Fl::to_f64(a), b64, ib + 1, show(&base), show(&twin)),
+                            Json::obj(vec![("type", Json::str(T::NAME)), ("x", Json::f64s(&x64)), ("first_query", Json::Num(Fl::to_f64(a))), ("second_query", Json::Num(b64)), ("fold", Json::str(fold))]),
+                        );
+                        return;
+                    }
+                }
+            }
+        }
+    }
+    out.sample = Some(Json::obj(vec![("type", Json::str(T::NAME)), ("x", Json::f64s(&x64))]));
+}
+
 fn body(ctx: &Ctx) -> (Summary, Meta) {
     let quick = ctx.quick();
     let mut jobs = vec![];
@@ -637,8 +762,17 @@ fn body(ctx: &Ctx) -> (Summary, Meta) {
         }
         out
     }));
+    sum.merge(run_jobs(ctx, "colliding-coordinates", &[false, true], |f| format!("{}:collisions", if *f { "f32" } else { "f64" }), |f| {
+        let mut out = JobOut::default();
+        if *f {
+            run_collisions::<f32>(&mut out);
+        } else {
+            run_collisions::<f64>(&mut out);
+        }
+        out
+    }));
     let meta = Meta {
-        rule: "for every axis / grid: a base interpolator and twins that differ only outside the bracket: every single non-bracketing data row (2-D: node, x-row, y-column) set to NaN, +inf, -inf, 7.5, all non-bracketing rows at once, and every non-bracketing axis knot moved to 2-4 places strictly between its neighbours (incl. 1 ulp from them, end knots far out). The whole ascending query list (3 outside below, per interval knot/+1ulp/quarters/-1ulp, last knot, 3 outside above) is evaluated in one call on base and twin and compared bit for bit wherever the bracket (C11 convention x[i] <= q < x[i+1]) does not touch the change. Every such comparison is non-trivial. Phase long-dense-axes: f64 axes of 70000 / 140000 unevenly spaced knots 2^-17 apart near 1024 (16 knots per f32 value), about 450 sampled brackets each with the 128 surrounding rows poisoned; the same on axes x_i = i^2 of 140000 / 600000 knots and on a unit-spaced axis of 400000 knots with six intervals of width 10^6 at either end, incl. the first and last 1100 brackets. Phase i64-axes-beyond-2^53: i64 axes with 4 / 9 / 33 knots (unit steps, mixed steps, one wide interval) based at 0, 2^53, 2^60+1, -2^62: per interval (cell) a twin poisoned everywhere outside the bracket, every integer query of the interval, Linear and Bilinear (both orientations).".into(),
+        rule: "for every axis / grid: a base interpolator and twins that differ only outside the bracket: every single non-bracketing data row (2-D: node, x-row, y-column) set to NaN, +inf, -inf, 7.5, all non-bracketing rows at once, and every non-bracketing axis knot moved to 2-4 places strictly between its neighbours (incl. 1 ulp from them, end knots far out). The whole ascending query list (3 outside below, per interval knot/+1ulp/quarters/-1ulp, last knot, 3 outside above) is evaluated in one call on base and twin and compared bit for bit wherever the bracket (C11 convention x[i] <= q < x[i+1]) does not touch the change. Every such comparison is non-trivial. Phase long-dense-axes: f64 axes of 70000 / 140000 unevenly spaced knots 2^-17 apart near 1024 (16 knots per f32 value), about 450 sampled brackets each with the 128 surrounding rows poisoned; the same on axes x_i = i^2 of 140000 / 600000 knots and on a unit-spaced axis of 400000 knots with six intervals of width 10^6 at either end, incl. the first and last 1100 brackets. Phase i64-axes-beyond-2^53: i64 axes with 4 / 9 / 33 knots (unit steps, mixed steps, one wide interval) based at 0, 2^53, 2^60+1, -2^62: per interval (cell) a twin poisoned everywhere outside the bracket, every integer query of the interval, Linear and Bilinear (both orientations). Phase colliding-coordinates: two-query histories A, B on one interpolator where B lies in another interval and its bit pattern collides with A's under xor / sum of the halves or equal low halves (f64: 32-bit halves, f32: 16-bit), 8 anchors x 18 targets x 3 folds, Linear and Bilinear (axis as x and as y), single calls and a 2-element batch; B's answer must be bit-identical on the twin whose rows outside B's bracket are NaN.".into(),
         bounds: format!("{njobs} (type, axis/grid) jobs; tier {}", ctx.tier.name()),
         assumptions: vec!["the bracket of a query exactly at an interior knot x[i] is (i, i+1), as C11 specifies".into()],
         extra: vec![],
